@@ -402,6 +402,11 @@ class SymEval:
                 ret = None
             except _Return as r:
                 ret = r.v
+            # values returned early under a condition the analysis could not decide belong to
+            # the result: join them in (differing entries become unknowns, so no rule can
+            # conclude anything from the fall-through path alone)
+            for er in env.get('__early_returns__', ()):
+                ret = self.join(ret, er, f.node, 'return')
         finally:
             self.depth -= 1
             self.cur = old
